@@ -122,6 +122,23 @@ func genScenario(r *Rng, maxMsgs, maxRcpts int) *SmtpScenario {
 	if r.Chance(6) {
 		sc.CtxCancelInMsg = 1 + r.Intn(len(sc.Msgs))
 	}
+	if sc.TLS == "" && r.Chance(15) {
+		// the Client has been used before: against a server with other capabilities, with failures
+		w := &SmtpScenario{Script: map[int]SrvAction{}}
+		for _, cp := range capPool {
+			if r.Chance(55) {
+				w.Caps = append(w.Caps, cp)
+			}
+		}
+		for k := 0; k < r.Intn(3); k++ {
+			w.Script[r.Intn(12)] = genFailAction(r)
+		}
+		nw := 1 + r.Intn(2)
+		for i := 0; i < nw; i++ {
+			w.Msgs = append(w.Msgs, SmtpMsg{From: fmt.Sprintf("warm%d@example.com", i), To: []string{fmt.Sprintf("warm.rcpt%d@example.com", i)}, RenderFail: r.Chance(15)})
+		}
+		sc.Warmup = w
+	}
 	return sc
 }
 
